@@ -66,6 +66,9 @@ func runLoop() {
 		out.WriteByte(' ')
 		out.WriteString(res)
 		out.WriteByte('\n')
+		// every answer reaches the pipe before the next operation starts: a fatal crash of the process (stack
+		// overflow, out of memory, the race detector halting) is then attributed to the operation that caused it
+		out.Flush()
 	}
 }
 
